@@ -494,4 +494,10 @@ theorem c14_no_nested_lock_on_any_call_path {fn : FV.Locks.Fn} (hfn : fn ∈ FV.
     (hh : FV.Generated.Locks.facts[h]? = some fnh) : m ∉ fnh.acquires :=
   FV.Locks.ok_no_nested_path _ _ _ c14_lock_discipline hfn hheld hrel hr hh
 
+/-- **No goroutine of a loop shares an outer variable** (regenerated from lib/go on every check): no `go func(){…}()`
+started inside a `for` body uses a variable that is declared outside the loop and assigned inside it. This is
+what makes "one goroutine per accepted connection, each serving ITS connection" (the per-connection model
+`FV.Proc.srvRun`, `c14_connections_independent`) a faithful reading of `acceptLoop`. -/
+theorem c14_no_loop_shared_goroutine_variable : FV.Generated.Locks.loopShares = [] := by decide
+
 end FV.C14
